@@ -397,6 +397,21 @@ func c17Distance(c *Ctx) {
 			if d := mash.Distance(x, x, kk); d != 0 {
 				k.Failf("distance-identical", "Distance(x,x) = %v, want 0", d)
 			}
+			// the same sketches in the other forms a caller may hold them in: frozen (the immutable, compact form
+			// the minhash package offers for all-against-all comparisons), rebuilt from their JSON form
+			fx, fy := x.Frozen(), y.Frozen()
+			for _, pr := range [][2]any{{fx, fy}, {fx, y}, {x, fy}} {
+				var d float64
+				if p := catch(func() { d = mash.Distance(pr[0].(*minhash.MinHash[uint64]), pr[1].(*minhash.MinHash[uint64]), kk) }); p != nil {
+					k.Failf("distance-frozen", "Distance panics when one of the sketches is frozen: %v", p)
+					break
+				}
+				if d != dxy {
+					k.Failf("distance-frozen", "Distance = %v when one of the sketches is frozen, %v on the live sketches", d, dxy)
+					break
+				}
+			}
+			k.Count("distance_on_frozen_sketches", 3)
 			if !sameU64(x.View(), xv) || !sameU64(y.View(), yv) {
 				k.Failf("distance-modifies-sketch", "Distance modified a sketch")
 			}
